@@ -326,7 +326,10 @@ func (r *Run) havocLoop(st *State, fr *Frame, li *LoopInfo) {
 		st.Counters[k] = nv
 	}
 	for k := range st.Ghost {
-		if strings.HasPrefix(k, "arg:") || strings.HasPrefix(k, "res:") || k == "rand.last" || strings.HasPrefix(k, "ctxerr.last:") {
+		if strings.HasPrefix(k, "arg:") || strings.HasPrefix(k, "res:") || k == "rand.last" {
+			delete(st.Ghost, k)
+		}
+		if strings.HasPrefix(k, "ctxerr.last:") && (regions["ctxerr.last"] || all) {
 			delete(st.Ghost, k)
 		}
 	}
@@ -580,6 +583,7 @@ func (r *Run) branch(st *State, fr *Frame, x *ssa.If) []*State {
 // doReturn pops the frame; at top level records the exit.
 func (r *Run) doReturn(st *State, fr *Frame, res []Val) []*State {
 	if len(st.Frames) == 1 {
+		r.aliasCheck(st, fr, res, "ret")
 		r.exits = append(r.exits, &Exit{St: st, Results: res})
 		st.Done = true
 		return nil
@@ -588,6 +592,30 @@ func (r *Run) doReturn(st *State, fr *Frame, res []Val) []*State {
 	parent := st.top()
 	r.afterInlined(st, parent, fr, res)
 	return nil
+}
+
+// aliasCheck: slices are modelled with value semantics; that is sound only if a slice held in a
+// lock-guarded field never escapes (DESIGN 2.3). A returned slice value that still is the guarded
+// field's own backing array fails alias:<what>.
+func (r *Run) aliasCheck(st *State, fr *Frame, vals []Val, what string) {
+	e := r.e
+	for i, v := range vals {
+		sv, ok := v.(*SliceV)
+		if !ok {
+			continue
+		}
+		name := fmt.Sprintf("%s/alias:%s%d", e.fnName[fr.Fn], what, i)
+		goal := True
+		text := "returned slice does not share the backing array of a lock-guarded field (value semantics of slices)"
+		if sv.Src != nil && sv.Src.Kind == AField {
+			parts := strings.SplitN(sv.Src.Region, ".", 2)
+			if len(parts) == 2 && e.guardOf(parts[0], parts[1]).Kind == "guard" {
+				goal = Or(sv.Nil, Eq(sv.Len, IntLit(0)))
+				text = "slice escaping from guarded field " + sv.Src.Region + " is a copy (value semantics of slices)"
+			}
+		}
+		e.emitWith(st, name, "", nil, goal, text, e.framePos(fr), []string{"C11"}, nil)
+	}
 }
 
 func (r *Run) afterInlined(st *State, parent *Frame, child *Frame, res []Val) {
@@ -660,7 +688,7 @@ func (r *Run) drainDefers(st *State, fr *Frame) []*State {
 func (r *Run) alloc(st *State, fr *Frame, x *ssa.Alloc) Val {
 	e := r.e
 	et := x.Type().(*types.Pointer).Elem()
-	if _, ok := et.Underlying().(*types.Struct); ok {
+	if _, ok := et.Underlying().(*types.Struct); ok && isObjectStruct(et) {
 		ref := r.newObject(st, et, x.Comment)
 		if x.Comment != "" {
 			// struct locals are addressable by name in specs through a pseudo cell holding the ref
@@ -670,9 +698,17 @@ func (r *Run) alloc(st *State, fr *Frame, x *ssa.Alloc) Val {
 		}
 		return ref
 	}
-	if _, ok := et.Underlying().(*types.Array); ok {
-		ref := e.freshConst("arr_"+x.Comment, SRef)
-		return ref
+	if at, ok := et.Underlying().(*types.Array); ok {
+		// arrays (e.g. the backing array of a variadic call) are cells holding a fixed-length slice value
+		es := e.sortOf(at.Elem())
+		if es == "" {
+			es = SAny
+		}
+		z := e.asTerm(e.zeroVal(st, at.Elem()), es)
+		zat := e.defineFun("zeros", []T{{"i!", SInt}}, es, z)
+		c := &Cell{ID: e.nextCell(), Name: x.Comment, Typ: types.NewSlice(at.Elem())}
+		st.Cells[c] = &SliceV{Len: IntLit(at.Len()), At: zat, Elem: es, Nil: False, ElemT: at.Elem()}
+		return &Addr{Kind: ACell, Cell: c, FieldT: c.Typ}
 	}
 	c := &Cell{ID: e.nextCell(), Name: x.Comment, Typ: et}
 	st.Cells[c] = e.zeroVal(st, et)
@@ -680,6 +716,21 @@ func (r *Run) alloc(st *State, fr *Frame, x *ssa.Alloc) Val {
 		fr.Cells[x.Comment] = c
 	}
 	return &Addr{Kind: ACell, Cell: c, FieldT: et}
+}
+
+// isObjectStruct: struct types whose values are addressed as heap objects (program structs and the
+// synchronisation types, which have identity); other external structs (reflect.Value, time.Time, ...)
+// are plain opaque values held in cells.
+func isObjectStruct(t types.Type) bool {
+	if !isOpaqueStruct(t) {
+		return true
+	}
+	n := t.(*types.Named)
+	switch n.Obj().Pkg().Path() {
+	case "sync", "sync/atomic":
+		return true
+	}
+	return false
 }
 
 func (e *Engine) nextCell() int { e.cellSeq++; return e.cellSeq }
@@ -698,6 +749,14 @@ func (r *Run) newObject(st *State, t types.Type, hint string) T {
 		}
 	}
 	st.Fresh = append(st.Fresh, ref)
+	switch typeKey(t) {
+	case "sync.Once":
+		e.region(st, "once.done", []Sort{SRef}, SBool)
+		e.regionWrite1(st, "once.done", SBool, ref, False)
+	case "sync.WaitGroup":
+		e.region(st, "wg.n", []Sort{SRef}, SInt)
+		e.regionWrite1(st, "wg.n", SInt, ref, IntLit(0))
+	}
 	if !isOpaqueStruct(t) {
 		s := t.Underlying().(*types.Struct)
 		key := e.structKey(t)
@@ -707,6 +766,15 @@ func (r *Run) newObject(st *State, t types.Type, hint string) T {
 				continue // nested program struct: zeroed lazily (rare)
 			}
 			if isOpaqueStruct(f.Type()) {
+				nr := e.nestedRef(fieldRegionName(key, f.Name()), ref)
+				switch typeKey(f.Type()) {
+				case "sync.Once":
+					e.region(st, "once.done", []Sort{SRef}, SBool)
+					e.regionWrite1(st, "once.done", SBool, nr, False)
+				case "sync.WaitGroup":
+					e.region(st, "wg.n", []Sort{SRef}, SInt)
+					e.regionWrite1(st, "wg.n", SInt, nr, IntLit(0))
+				}
 				continue
 			}
 			e.writeLoc(st, fieldRegionName(key, f.Name()), f.Type(), ref, e.zeroVal(st, f.Type()))
@@ -774,6 +842,15 @@ func (r *Run) indexAddr(st *State, fr *Frame, x *ssa.IndexAddr) Val {
 	e := r.e
 	xv := r.val(st, fr, x.X)
 	idx := r.intVal(st, fr, x.Index)
+	if a, isAddr := xv.(*Addr); isAddr && a.Kind == ACell {
+		if cs, isSl := st.Cells[a.Cell].(*SliceV); isSl {
+			c := *cs
+			c.Org = a
+			c.OrgOff = IntLit(0)
+			c.OrgAt = cs.At
+			xv = &c
+		}
+	}
 	sv, ok := xv.(*SliceV)
 	if !ok {
 		// pointer to array etc.
@@ -1408,6 +1485,15 @@ func (r *Run) makeSlice(st *State, fr *Frame, x *ssa.MakeSlice) Val {
 func (r *Run) sliceOp(st *State, fr *Frame, x *ssa.Slice) Val {
 	e := r.e
 	xv := r.val(st, fr, x.X)
+	if a, isAddr := xv.(*Addr); isAddr && a.Kind == ACell {
+		if cs, isSl := st.Cells[a.Cell].(*SliceV); isSl {
+			c := *cs
+			c.Org = a
+			c.OrgOff = IntLit(0)
+			c.OrgAt = cs.At
+			xv = &c
+		}
+	}
 	sv, ok := xv.(*SliceV)
 	if !ok {
 		return e.freshVal(st, x.Type(), "slice")
